@@ -15,6 +15,7 @@ class Prop(BaseProp):
         "CRC-32 detects every single burst of at most 32 bits: a fact about the polynomial, not proved here; the theorems state the collision explicitly instead",
     ]
     assumptions = [
+        're-open theorems: the directory is well formed (each key directory under the prefix directory named by its first characters, names unique), the base64 name decoder accepts canonical encodings only (b64d n = Some b -> encode b = n) and returns bytes; J1 (no undetectable foreign entry) separates the recorded finding K1',
         "every put carries the ground-truth slice of its key (one content per key and chunk index), as the xorb contents the cache is used for",
         "interleavings are at the granularity of the model's micro steps (one lock-protected block or one file-system action each); the implementation is driven at the coarser granularity of its guarded schedule points",
     ]
@@ -24,7 +25,7 @@ class Prop(BaseProp):
             "run under explicit schedules through the guarded schedule points; after every step the result, the tracked state and a digest of the cache files are compared with the model, which is "
             "given the directory listing order and the eviction victims the implementation chose; every hit is compared with the ground truth; "
             "non-trivial = at least 4 operations; distinct by sha256 of the case text")
-    kinds = ["seq", "evict", "damage", "damage", "known", "openwhile", "conc", "capchange", "race"]
+    kinds = ["seq", "evict", "damage", "damage", "known", "openwhile", "conc", "capchange", "exactcap", "race"]
     allow_known = True
 
     def streams(self, rng, tier):
